@@ -25,10 +25,10 @@ type lifeSpec struct {
 	OnReplay   func(s *Sim, os []Oracle)
 }
 
-var lifeActions = []string{"storeNew", "storeUpdate", "complete", "cancel", "terminate", "renew", "migrate", "claim", "advance", "storeHostile", "seed", "vstorage", "bankDrain", "resetNode", "debtCombo", "keepAlive", "permission", "storeStale", "migRotate", "fault", "forceAfterRenew", "settleAfterMig", "poorTakeover"}
+var lifeActions = []string{"storeNew", "storeUpdate", "complete", "cancel", "terminate", "renew", "migrate", "claim", "advance", "storeHostile", "seed", "vstorage", "bankDrain", "resetNode", "debtCombo", "keepAlive", "permission", "storeStale", "migRotate", "fault", "forceAfterRenew", "settleAfterMig", "poorTakeover", "claimBurst", "claimUnderDebt"}
 
 // actions that are off unless a spec gives them a weight
-var lifeOptIn = map[string]bool{"storeHostile": true, "seed": true, "vstorage": true, "bankDrain": true, "resetNode": true, "debtCombo": true, "keepAlive": true, "permission": true, "storeStale": true, "migRotate": true, "fault": true, "forceAfterRenew": true, "settleAfterMig": true, "poorTakeover": true}
+var lifeOptIn = map[string]bool{"storeHostile": true, "seed": true, "vstorage": true, "bankDrain": true, "resetNode": true, "debtCombo": true, "keepAlive": true, "permission": true, "storeStale": true, "migRotate": true, "fault": true, "forceAfterRenew": true, "settleAfterMig": true, "poorTakeover": true, "claimBurst": true, "claimUnderDebt": true}
 
 func (sp *lifeSpec) newSim(t TB) (*Sim, *LifeCfg, []Oracle) {
 	os := sp.Oracles()
@@ -70,7 +70,7 @@ func (sp *lifeSpec) property() func(*rapid.T) {
 				"storeNew": cfg.GenStoreNew, "storeUpdate": cfg.GenStoreUpdate, "complete": cfg.GenComplete,
 				"cancel": cfg.GenCancel, "terminate": cfg.GenTerminate, "renew": cfg.GenRenew,
 				"migrate": cfg.GenMigrate, "claim": cfg.GenClaim, "advance": cfg.GenAdvance,
-				"storeHostile": cfg.GenStoreHostile, "seed": cfg.GenSeed, "vstorage": cfg.GenVstorage, "bankDrain": cfg.GenBankDrain, "resetNode": cfg.GenResetNode, "debtCombo": cfg.GenDebtCombo, "keepAlive": cfg.GenKeepAlive, "permission": cfg.GenPermission, "storeStale": cfg.GenStoreStale, "migRotate": cfg.GenMigrationAcrossRotation, "fault": cfg.GenFault, "forceAfterRenew": cfg.GenForceAfterRenew, "settleAfterMig": cfg.GenSettleAfterMigration, "poorTakeover": cfg.GenPoorTakeover,
+				"storeHostile": cfg.GenStoreHostile, "seed": cfg.GenSeed, "vstorage": cfg.GenVstorage, "bankDrain": cfg.GenBankDrain, "resetNode": cfg.GenResetNode, "debtCombo": cfg.GenDebtCombo, "keepAlive": cfg.GenKeepAlive, "permission": cfg.GenPermission, "storeStale": cfg.GenStoreStale, "migRotate": cfg.GenMigrationAcrossRotation, "fault": cfg.GenFault, "forceAfterRenew": cfg.GenForceAfterRenew, "settleAfterMig": cfg.GenSettleAfterMigration, "poorTakeover": cfg.GenPoorTakeover, "claimBurst": cfg.GenClaimBurst, "claimUnderDebt": cfg.GenClaimUnderDebt,
 			}
 			var menu []string
 			for _, k := range lifeActions {
@@ -197,7 +197,7 @@ var specC06 = &lifeSpec{
 		interesting := s.Labels["debt-created"] + s.Labels["debt-repaid"] + s.Labels["renew+"] + s.Labels["migrate+"] + s.Labels["claim+"]
 		return o.MaxEscrowsNonZero >= 2 && interesting > 0
 	},
-	Weights: map[string]int{"complete": 4, "advance": 3, "storeNew": 2, "renew": 3, "bankDrain": 2, "claim": 2, "vstorage": 1, "debtCombo": 2, "poorTakeover": 1},
+	Weights: map[string]int{"complete": 4, "advance": 3, "storeNew": 2, "renew": 3, "bankDrain": 2, "claim": 2, "vstorage": 1, "debtCombo": 2, "poorTakeover": 1, "claimBurst": 1, "claimUnderDebt": 1},
 	Pre: func(t *rapid.T, s *Sim, cfg *LifeCfg, os []Oracle) {
 		// half of the worlds mint block rewards that are visible in whole coins (claims then mix
 		// block reward and storage income, also when collateral debt is repaid from them)
@@ -282,7 +282,7 @@ var specC04 = &lifeSpec{
 	Nontrivial: func(s *Sim, os []Oracle) bool {
 		return os[0].(*C04Oracle).Settled > 0 && s.Labels["claim+"] > 0
 	},
-	Weights:  map[string]int{"complete": 5, "advance": 4, "storeNew": 3, "storeUpdate": 2, "renew": 3, "migrate": 2, "claim": 2, "terminate": 2, "cancel": 1, "keepAlive": 1, "migRotate": 1, "settleAfterMig": 2},
+	Weights:  map[string]int{"complete": 5, "advance": 4, "storeNew": 3, "storeUpdate": 2, "renew": 3, "migrate": 2, "claim": 2, "terminate": 2, "cancel": 1, "keepAlive": 1, "migRotate": 1, "settleAfterMig": 2, "claimBurst": 2},
 	Drain:    true,
 	MaxSteps: 35,
 	Finish: func(s *Sim, cfg *LifeCfg, os []Oracle) {
@@ -376,7 +376,7 @@ var specC08 = &lifeSpec{
 		o := os[0].(*C08Oracle)
 		return o.Mints > 0 && o.CapChanges > 0 && o.Claims > 0
 	},
-	Weights:  map[string]int{"complete": 2, "advance": 5, "storeNew": 2, "storeUpdate": 0, "renew": 1, "migrate": 1, "claim": 4, "terminate": 1, "cancel": 0, "vstorage": 5},
+	Weights:  map[string]int{"complete": 2, "advance": 5, "storeNew": 2, "storeUpdate": 0, "renew": 1, "migrate": 1, "claim": 4, "terminate": 1, "cancel": 0, "vstorage": 5, "claimUnderDebt": 3},
 	MaxSteps: 40,
 	Capacity: 1_000_000_000,
 }
